@@ -320,6 +320,10 @@ contains
        end do
     end do
 
+    ! The two halves meet at ``B(1/2)``; the sums above accumulate the same
+    ! terms in opposite order, so copy to share the point exactly.
+    right_nodes(:, 1) = left_nodes(:, num_nodes)
+
   end subroutine subdivide_nodes_generic
 
   subroutine subdivide_nodes( &
